@@ -22,6 +22,31 @@ def run(rep, drv):
 	for k in range(300 if th else 50):
 		override_case(rep, drv, simlib.gen_spec(rngo, th))
 
+	# object life cycle: the same network objects simulated a second time with the same horizon (as run_multiple_trials does) -- the second
+	# trajectory conserves units like the first and equals the model's
+	rngr = random.Random(rep.seed * 7 + 201)
+	for k in range(300 if th else 40):
+		spec = simlib.gen_spec(rngr, th)
+		r = simstream.one_case(rep, drv, 'sim-trace', spec, FIELDS, oracle, THEOREM)
+		if r is None:
+			continue
+		py, mo, init = r
+		py2 = simlib.run_py(spec, net_objs=(py['net'], py['objs']))
+		rep.count('second-simulation-of-the-same-objects')
+		if 'error' in py2:
+			rep.diff('sim-trace', 'second simulation of the same network objects raised %s: %s' % (py2['error'], py2.get('msg')), spec, oracle=True, theorem=THEOREM)
+			continue
+		d = simlib.compare_traces(spec, py2, mo, FIELDS)
+		fails = oracle(spec, py2['trace'], init)
+		if d or fails:
+			what = 'second simulation of the same network objects'
+			if d:
+				what += ': model/implementation differ: ' + simlib.fmt_diffs(d)
+			if fails:
+				what += ' | property predicate fails on the real code: ' + '; '.join(fails[:3])
+			rep.diff('sim-trace', what, dict(spec, second_run=True), py={'first_diffs': [list(map(str, x)) for x in d[:8]], 'predicate_failures': fails[:8]},
+					 oracle=bool(fails), theorem=THEOREM if not d else None)
+
 
 def override_case(rep, drv, spec):
 	"""Orders SET from outside through step(order_quantity_override=...): whatever a node is told to order (more or LESS than its policy asks for), every
